@@ -311,6 +311,11 @@ SNIPPETS = [
     "[{a} for i in range(2)]", "{a}; {b}", "{a}, {b}, {c}", "{ha} = 3\n{a}", "import {ha}\n{a}",
     "print({a} + {b})", "y = [{a}, {b}]", "lambda q: {a}", "{a}[0] = 1", "del_me = 1\n{a}\n{b}",
     "if True:\n    {a}\n", "{a}[0]", "len({a})",
+    # an aliased dotted import binds the alias only; a return annotation is evaluated when the def statement runs,
+    # before a module-level binding further down exists
+    "import {a} as {lv}\n{a}", "import {a} as {lv}\n{ha}", "import {a} as {lv}\n{ha}.attr",
+    "class K:\n    def m(self) -> {h}: pass\n{h} = 1", "class K:\n    def m(self, q: {h}) -> {h2}: pass\nimport os as {h2}",
+    "def fn() -> {h}: pass\n{h} = 1",
 ]
 BAD_SNIPPETS = ["{a} +", "({a}", "def", "{a}.(x)", "{a} {b}", "x = = {a}", "   {a}\n{b}"]
 # text that CPython rejects only because of its layout ("unexpected indent"): it would parse after a
@@ -407,6 +412,9 @@ CODEOBJ_SNIPPETS = [
     "class K:\n    def m[T](self, q: T) -> {a}: ...", "class K:\n    class Inner[T]({a}): pass",
     "class K:\n    def m[T: {a}](self): ...", "class K:\n    type Al = {a}", "class K:\n    def m[T](self, *r: {a}, k: {b} = 1): ...",
     "{a}", "x = {a}\nprint(x)", "def fn():\n    return {a}\nfn()", "class K:\n    z = {a}", "{a}; {b}", "def fn[T](q: T) -> {a}: ...",
+    # a name bound in a class body is not a global: a later function reading the global of that name still needs it
+    "class K:\n    def {h}(self): pass\ndef fn():\n    return {h}\nfn()", "class K:\n    {h} = 1\nfn = lambda: {h}\nfn()",
+    "class K:\n    {ha} = 1\ndef fn():\n    return {a}\nfn()",
 ]
 # text that does NOT parse although Unicode normalisation (NFKC) would turn it into a dotted name: a compatibility
 # full stop between the parts, a compatibility digit inside an identifier (C06-N1)
